@@ -47,6 +47,26 @@ def fold(e, env: Optional[Dict[str, object]] = None, p: Optional[Project] = None
                     return UNK
                 out.append(v)
         return tuple(out)
+    if isinstance(e, (ast.GeneratorExp, ast.ListComp)) and len(e.generators) == 1 and not e.generators[0].ifs:
+        g_ = e.generators[0]
+        it_ = fold(g_.iter, env, p, modname)
+        if not isinstance(it_, (tuple, list)) or len(it_) > 200:
+            return UNK
+        out_ = []
+        for item in it_:
+            env2 = dict(env)
+            if isinstance(g_.target, ast.Name):
+                env2[g_.target.id] = item
+            elif isinstance(g_.target, ast.Tuple) and isinstance(item, (tuple, list)) and len(item) == len(g_.target.elts) and all(isinstance(t_, ast.Name) for t_ in g_.target.elts):
+                for t_, v_ in zip(g_.target.elts, item):
+                    env2[t_.id] = v_
+            else:
+                return UNK
+            v = fold(e.elt, env2, p, modname)
+            if v is UNK:
+                return UNK
+            out_.append(v)
+        return tuple(out_)
     if isinstance(e, ast.JoinedStr):
         s = ""
         for part in e.values:
@@ -110,6 +130,22 @@ def fold(e, env: Optional[Dict[str, object]] = None, p: Optional[Project] = None
             if isinstance(sep, str) and isinstance(parts, (tuple, list)) and all(isinstance(x, str) for x in parts):
                 return sep.join(parts)
             return UNK
+        # a module-level helper that is ONE expression of its parameters (`def frag(name, value): return rf"..{name}.."`):
+        # the expression folded with the parameters bound to the folded arguments
+        if isinstance(e.func, ast.Name) and p is not None and modname is not None and not e.keywords and (env.get("__calls__", 0) if isinstance(env, dict) else 0) < 4:
+            try:
+                fd_ = p.get_function(modname, e.func.id).node
+            except Exception:
+                fd_ = None
+            if fd_ is not None and not fd_.args.vararg and not fd_.args.kwarg:
+                body_ = [s_ for s_ in fd_.body if not (isinstance(s_, ast.Expr) and isinstance(s_.value, ast.Constant))]
+                ps_ = [a_.arg for a_ in fd_.args.args]
+                if len(body_) == 1 and isinstance(body_[0], ast.Return) and body_[0].value is not None and len(ps_) == len(e.args):
+                    vals_ = [fold(a_, env, p, modname) for a_ in e.args]
+                    if all(_ok(v_) for v_ in vals_):
+                        env2 = dict(zip(ps_, vals_))
+                        env2["__calls__"] = (env.get("__calls__", 0) if isinstance(env, dict) else 0) + 1
+                        return fold(body_[0].value, env2, p, modname)
         if isinstance(e.func, ast.Attribute) and e.func.attr in _STR_METHODS and not e.keywords:
             base = fold(e.func.value, env, p, modname)
             args = [fold(a, env, p, modname) for a in e.args]
